@@ -752,6 +752,60 @@ func (env *Env) call(x *SExpr) *SVal {
 	case "fresh":
 		v := arg(0)
 		return &SVal{T: c.Cmp("bvugt", env.objOf(v), env.alloc0), Typ: boolT}
+	case "kept", "keptexcept":
+		// kept("heap", ...): every object that existed in the old state has its old content in the named heaps (objects
+		// allocated since may hold anything). keptexcept("heap", p): the same, except for the object p points to.
+		if env.old == nil {
+			sfail("%s() needs an old state", x.Name)
+		}
+		var names []string
+		var except *smt.Term
+		for i, a := range x.Args {
+			if a.Kind == "str" {
+				names = append(names, a.Name)
+				continue
+			}
+			if x.Name == "keptexcept" && i == len(x.Args)-1 {
+				except = env.objOf(env.val(env.ev(a)))
+				continue
+			}
+			sfail("%s(\"heap\", ...)", x.Name)
+		}
+		hs, err := e.P.expandHeaps(names)
+		if err != nil {
+			sfail("%s: %v", x.Name, err)
+		}
+		var cs []*smt.Term
+		for _, h := range hs {
+			e.ensureHeapKnown(h)
+			cur, was := e.heap(env.st, h, e.hsorts[h]), e.heap(env.old, h, e.hsorts[h])
+			if cur == was {
+				continue
+			}
+			if !e.twoLevel(h) {
+				cs = append(cs, c.Eq(cur, was))
+				continue
+			}
+			if ws, ok := e.peelStores(cur, was, c.True()); ok {
+				// quantifier-free: the current heap is a chain of stores over the old one; every object stored to
+				// is new (or the exception)
+				for _, w := range ws {
+					allowed := c.Cmp("bvugt", w.obj, env.old.Alloc)
+					if except != nil {
+						allowed = c.Or(allowed, c.Eq(w.obj, except))
+					}
+					cs = append(cs, c.Implies(w.guard, allowed))
+				}
+				continue
+			}
+			o := c.BoundVar("o", smt.BV(64))
+			g := c.And(c.Ne(o, e.bv64(0)), c.Cmp("bvule", o, env.old.Alloc))
+			if except != nil {
+				g = c.And(g, c.Ne(o, except))
+			}
+			cs = append(cs, c.Forall([]*smt.Term{o}, c.Implies(g, c.Eq(c.Select(cur, o), c.Select(was, o)))))
+		}
+		return &SVal{T: c.And(cs...), Typ: boolT}
 	case "unchanged":
 		// unchanged("heap name", ...): the named heaps (modifies-clause syntax) have their old() content
 		if env.old == nil {
